@@ -86,10 +86,15 @@ BETWEEN = (
 )
 
 
+def opt_cases(tier: str):
+    """Cases also executed by an interpreter started with -O (see vf/optpass.py)."""
+    return drive.opt_sweep_cases(tier)
+
+
 def enumerate_cases(tier: str):
     """rejected message, ONE event of every kind, rejected message again - per version, with and without a known node."""
     # one event of every kind under every environment dimension (transport kind, logging, warnings, a bystander gateway, registry file, ...)
-    yield from drive.env_sweep_cases()
+    yield from drive.all_sweep_cases()
     for version in ("2.0", "2.2", "1.5"):
         for registry in ({}, {"5": {"children": {"0": {"child_type": 6}}}}):
             for first in MISSING_KINDS:
